@@ -170,6 +170,10 @@ where
         if start + leaves_len > self.capacity() {
             return Err(Report::msg("provided range exceeds set size"));
         }
+        if leaves_len == 0 {
+            // nothing to write: in particular the number of leaves set does not move to `start`
+            return Ok(());
+        }
         for (i, leaf) in leaves.enumerate() {
             self.nodes.insert((self.depth, start + i), leaf);
             self.cached_leaves_indices[start + i] = 1;
